@@ -57,8 +57,10 @@ func checkC13(c *Ctx) {
 		"G-C13-err: the point-at-infinity test on V, both ZA errors and a zero KDF output each abort with an error (no overwritten error)",
 		"K-C13-formulas: t = (d + x̄·r) mod n with x̄ from the caller's ephemeral x; V = [t](P_peer + [x̄_peer]R_peer); K = KDF(klen, pad32(xV)||pad32(yV)||ZA||ZB); ZA over the initiator's key and ida, ZB over the responder's key and idb in both roles",
 		"T-C13-order: the inner hash is over xV||ZA||ZB||x1||y1||x2||y2 with (x1,y1) the initiator's ephemeral point in both roles, all coordinates 32 bytes; S1 = H(0x02||yV||h), S2 = H(0x03||yV||h)",
-		"K-C13-xhat: x̄ = 2^127 + (x mod 2^127)")
-	c.NotDec = append(c.NotDec, "numerical equality of the derived keys with GM/T 0003.3 (curve arithmetic is C03, SM3 is C04, KDF structure is C02)")
+		"K-C13-xhat: x̄ = 2^127 + (x mod 2^127)",
+		"K-C02-kdf: the KDF that turns xV||yV||ZA||ZB into the shared key is SM3(Z||ct), ct = 1,2,… with the hash reset per block (the rule of C02, evaluated here too because the agreed key beyond 32 bytes depends on it)")
+	c.NotDec = append(c.NotDec, "numerical equality of the derived keys with GM/T 0003.3 (curve arithmetic is C03, SM3 is C04)")
+	c02KDF(c)
 	f := c.Fn("sm2", "keyExchange")
 	if f == nil {
 		c.Missing("K-C13-formulas", "sm2.keyExchange", "function", "not found")
